@@ -135,6 +135,7 @@ def analyse_run(sc, rm: RM, r, want=None, want_lazy_probe=True):
 
     def bump(k, n=1):
         st[k] = st.get(k, 0) + n
+    died = None
     # ---- outcome classification (C05)
     guard_expected = any(any(x >= cfg.get("mli", 100) for x in tau[1:])
                          for d in A.dem.values() for tau in d)
@@ -180,12 +181,33 @@ def analyse_run(sc, rm: RM, r, want=None, want_lazy_probe=True):
                 viols.setdefault("C05", []).append(
                     {"kind": f"internal:{typ}", "features": {"where": where, "msg": head},
                      "detail": {"outcome": oc, "tb": (r.tb or "")[-1200:]}})
+                died = f"internal:{typ}"
         elif oc[0] == "scenario_error":
             bump("rejected_by_cycle_check")        # C06's matter
         elif oc[0] == "start_error":
             raise RuntimeError(f"harness: start_error {oc}")
         else:
             bump("outcome_" + oc[0])
+    if oc[0] in ("deadlock", "hang", "livelock"):
+        died = oc[0]
+    if died is not None and "C02" not in A.viol:
+        # the run did not return although the scenario is valid and the simulators are compliant
+        # (C05's finding); seen from C02, the steps that were already demanded are lost
+        lost = None
+        for sid in sorted(A.dem):
+            exs = {s_.tau for s_ in A.steps[sid] if s_.tau is not None}
+            for tau in sorted(A.dem[sid]):
+                if tau not in exs:
+                    lost = (sid, tau)
+                    break
+            if lost:
+                break
+        if lost is not None:
+            msg = oc[2] if oc[0] == "exception" else ""
+            viols.setdefault("C02", []).append(
+                {"kind": "lost_run_did_not_return",
+                 "features": {"how": died, "incomparable": "incomparable" in msg},
+                 "detail": {"outcome": list(oc), "first_lost": [lost[0], list(lost[1])]}})
     if any(v[0] != "ok" for v in r.connects):
         bump("connect_rejected_by_mosaik")         # C11's matter
     # ---- oracle violations
